@@ -508,7 +508,14 @@ func init() {
 	registerCheck(&CheckDef{
 		ID: "C01",
 		Runs: func(tier string) []HarnessRun {
-			runs := ircStepRuns("verifHarness_C01_step", tier, false, "L", 3, "K", 2, "P", 2, "permute", 1)
+			runs := ircStepRuns("verifHarness_C01_step", tier, false, "L", 3, "K", 2, "P", 1, "permute", 1)
+			// the commands that walk over all pseudo-clients of a link need at least two of them
+			for _, c := range []struct {
+				name string
+				cmd  int
+			}{{"services-quit-2pseudo", 10}, {"services-kill-2pseudo", 3}} {
+				runs = append(runs, ircRun(c.name, "verifHarness_C01_step", mergeParams(runs[3].Params, "P", 2, "cmd", c.cmd)))
+			}
 			for k := range runs {
 				runs[k].Permute = 5
 				runs[k].ReplayRuns = 256
